@@ -107,7 +107,7 @@ CLAIMED = {
           "LayoutIsGuppi (every byte of every block holds exactly spectrum k*T+t / pol / component of the standard "
           "layout), NoDoubleWrite, SubblocksPartitionBlock, NumSubblocksIdempotent, CacheHandover, BlocksPerFile, "
           "SamplesDrawn, HistoryIndependence for every (taps, windows/block, num_subblocks incl. non-dividing and "
-          "larger than the windows, blocks, blocks/file, pols, bits) and two recordings. Configurations drawn by TLC "
+          "larger than the windows, blocks, blocks/file, pols, bits) and two recordings (three in a fifth of the replayed behaviours). Configurations drawn by TLC "
           "are recorded by real backends (antenna or 2-antenna array with delays, digitiser on/off, both "
           "orientations, three sample rates, random start channel); the antenna request sequence, files and "
           "PKTIDX must equal TLC's and every data byte must equal the harness-owned reference pipeline (quantise, "
@@ -138,7 +138,7 @@ CLAIMED = {
           "owned-field override attempts, template-overlapping zero-valued user cards, 1-4 blocks, 1-3 blocks/file, "
           "antenna/array are parsed by the independent parser into traces validated by RawFilesTrace.tla (position, "
           "padding, BLOCSIZE, PKTIDX step, owned fields, user cards, file count). Backend.tla adds BlocksPerFile / "
-          "PktIdxStep over two recordings per process. Recordings made before / next to existing files of the same stem, "
+          "PktIdxStep over two (in a fifth of the replayed behaviours three) recordings per process. Recordings made before / next to existing files of the same stem, "
           "END-prefixed card names, headers of 128 cards and more, and the DIRECTIO padding rule for all header lengths "
           "(Apalache, thorough tier) are covered."),
     note=("Trusted: TLC, the independent parser/writer harness/guppi.py, float comparison of header values at 1e-12 "
@@ -355,7 +355,7 @@ CLAIMED = {
     design_ref="DESIGN.md 4.3, 5 (C11), 9", engine="noise"),
  "C12": dict(
     text=("A two-run property decided with behaviours generated by the existing specifications. Backend.tla's "
-          "HistoryIndependence / PktIdxStep over two recordings per process and three header-dictionary modes (shared "
+          "HistoryIndependence / PktIdxStep over two (replay: also three) recordings per process and three header-dictionary modes (shared "
           "default, same dict passed again, fresh dict) is model-checked and replayed: request sequence, files, PKTIDX and "
           "every header card of the second recording must equal the first's, its data bytes must equal the reference "
           "pipeline fed by a same-seed twin antenna (what a fresh backend in the same antenna state would write), and the "
